@@ -378,7 +378,7 @@ def c03_make(rng, tier, i):
 def c10_make(rng, tier, i):
     n_ops = int(rng.choice([3, 5, 8, 12]))
     shape = [(3,), (2, 2), (4,)][int(rng.integers(0, 3))]
-    fams = [("alias", "binary"), ("alias", "sparse", "binary"), ("alias", "binary", "unary", "sparse", "reduce"), ("alias",), ("sparse", "alias")][i % 5]
+    fams = [("alias", "binary"), ("alias", "sparse", "binary"), ("alias", "binary", "unary", "sparse", "reduce"), ("alias",), ("sparse", "alias"), ("user", "alias", "binary"), ("user", "sparse", "unary")][i % 7]
     prog = programs.gen_program(rng, n_ops=n_ops, shape=shape, p_dead=0.0, p_multi=0.5, families=fams, fan=int(rng.integers(1, 4)), n_out=1)
     end = ["raw", "x_plus_x", "views_sum", "weighted", "sparse_end", "tuple_out"][int(rng.integers(0, 6))]
     x = rng.uniform(0.3, 1.4, size=shape) * rng.choice([-1.0, 1.0], size=shape)
